@@ -36,6 +36,7 @@ func genC15(r *h.Rng, tier string, idx int) *h.Plan {
 		p.Ops = append(p.Ops, h.Op{K: "sleep", N: int64(time.Duration(r.Range(lo, hi))*time.Millisecond + 2*time.Microsecond)})
 	}
 	sleep(1, 900)
+	lastSched := map[string]string{}
 	n := r.Range(4, 14)
 	for i := 0; i < n; i++ {
 		loc := r.Pick(locs)
@@ -53,6 +54,10 @@ func genC15(r *h.Rng, tier string, idx int) *h.Plan {
 			default:
 				sched = "*/5 * * * * * *"
 			}
+			if prev, ok := lastSched[loc+"/"+id]; ok && r.P(1, 3) {
+				sched = prev // the same rule written again, unchanged schedule
+			}
+			lastSched[loc+"/"+id] = sched
 			op := h.Op{K: "addsched", Loc: loc, Id: id, S: sched}
 			if r.P(1, 6) {
 				op.B = true // deleteWith the anchor fact
